@@ -552,6 +552,36 @@ func TestC02Enum(t *testing.T) {
 	}
 }
 
+// TestC02EnumVersion: every (major, minor) pair of the library's Version value in a Header: an encode
+// that succeeds must decode back to the same pair; a nibble that does not fit four bits must be refused.
+func TestC02EnumVersion(t *testing.T) {
+	for major := 0; major < 256; major++ {
+		for minor := 0; minor < 256; minor++ {
+			if major != 0xc && minor > 20 && minor%17 != 0 {
+				continue // thin out: all minors for major 0xc, a sample otherwise
+			}
+			ev.Eval()
+			h := &tq.Header{Version: tq.Version{MajorVersion: uint8(major), MinorVersion: uint8(minor)}, Type: tq.Authenticate, SeqNo: 1, SessionID: 7, Length: 0}
+			cse := map[string]int{"major": major, "minor": minor}
+			enc, err := h.MarshalBinary()
+			if err != nil {
+				continue
+			}
+			if major > 15 || minor > 15 {
+				violation(t, "C02", "Header", "C02:Header:unrepresentable-value-encoded", cse, "header version major %d minor %d does not fit the two nibbles of the version octet but encodes to %x", major, minor, enc)
+			}
+			var back tq.Header
+			if err := back.UnmarshalBinary(enc); err != nil {
+				violation(t, "C02", "Header", "C02:Header:own-encoding-refused", cse, "header version major %d minor %d encodes to %x, which the decoder refuses: %v", major, minor, enc, err)
+			}
+			if back.Version != h.Version {
+				violation(t, "C02", "Header", "C02:Header:roundtrip-differs", cse, "header version %+v decodes back as %+v", h.Version, back.Version)
+			}
+			ev.Class("Header:version-sweep")
+		}
+	}
+}
+
 func TestC02Regress(t *testing.T) {
 	for _, s := range loadSaved(t, "C02") {
 		var cc c02Case
